@@ -17,6 +17,7 @@ import (
 	"runtime/debug"
 	"slices"
 	"strings"
+	"sync"
 		_ "unsafe"
 
 	"golang.org/x/tools/go/ssa"
@@ -72,7 +73,8 @@ type frame struct {
 	caller           *frame
 	fn               *ssa.Function
 	block, prevBlock *ssa.BasicBlock
-	env              map[ssa.Value]value // dynamic values of SSA variables
+	info             *fnInfo
+	vals             []value // dynamic values of SSA variables, indexed by info.idx
 	locals           []value
 	defers           *deferred
 	result           value
@@ -98,8 +100,8 @@ func (fr *frame) get(key ssa.Value) value {
 			return r
 		}
 	}
-	if r, ok := fr.env[key]; ok {
-		return r
+	if ix, ok := fr.info.idx[key]; ok {
+		return fr.vals[ix]
 	}
 	panic(fmt.Sprintf("get: no value for %T: %v", key, key.Name()))
 }
@@ -154,6 +156,49 @@ func lookupMethod(i *interpreter, typ types.Type, meth *types.Func) *ssa.Functio
 		return i.errorMethods[meth.Id()]
 	}
 	return i.prog.LookupMethod(typ, meth.Pkg(), meth.Name())
+}
+
+// fnInfo numbers the SSA values of a function so that frames can use a slice.
+type fnInfo struct {
+	idx map[ssa.Value]int32
+	n   int
+}
+
+var fnInfos sync.Map // *ssa.Function -> *fnInfo
+
+func infoOf(fn *ssa.Function) *fnInfo {
+	if v, ok := fnInfos.Load(fn); ok {
+		return v.(*fnInfo)
+	}
+	fi := &fnInfo{idx: map[ssa.Value]int32{}}
+	add := func(v ssa.Value) {
+		if _, ok := fi.idx[v]; !ok {
+			fi.idx[v] = int32(len(fi.idx))
+		}
+	}
+	for _, l := range fn.Locals {
+		add(l)
+	}
+	for _, p := range fn.Params {
+		add(p)
+	}
+	for _, fv := range fn.FreeVars {
+		add(fv)
+	}
+	for _, b := range fn.Blocks {
+		for _, instr := range b.Instrs {
+			if v, ok := instr.(ssa.Value); ok {
+				add(v)
+			}
+		}
+	}
+	fi.n = len(fi.idx)
+	v, _ := fnInfos.LoadOrStore(fn, fi)
+	return v.(*fnInfo)
+}
+
+func (fr *frame) set(key ssa.Value, v value) {
+	fr.vals[fr.info.idx[key]] = v
 }
 
 // mustDeref returns the element type of a pointer type.
@@ -296,9 +341,9 @@ func visitInstr(fr *frame, instr ssa.Instruction) continuation {
 		switch instr.Op {
 		case token.MUL:
 			if r, ok := x.(*symref); ok {
-				fr.env[instr] = r.load()
+				fr.set(instr, r.load())
 			} else {
-				fr.env[instr] = load(mustDeref(instr.X.Type()), fr.derefCheck(x))
+				fr.set(instr, load(mustDeref(instr.X.Type()), fr.derefCheck(x)))
 			}
 		case token.ARROW:
 			ch, _ := x.(*schan)
@@ -307,12 +352,12 @@ func visitInstr(fr *frame, instr ssa.Instruction) continuation {
 				v = zero(instr.X.Type().Underlying().(*types.Chan).Elem())
 			}
 			if instr.CommaOk {
-				fr.env[instr] = tuple{v, ok}
+				fr.set(instr, tuple{v, ok})
 			} else {
-				fr.env[instr] = v
+				fr.set(instr, v)
 			}
 		default:
-			fr.env[instr] = unop(instr, x)
+			fr.set(instr, unop(instr, x))
 		}
 
 	case *ssa.BinOp:
@@ -333,17 +378,17 @@ func visitInstr(fr *frame, instr ssa.Instruction) continuation {
 				}
 			}
 		}
-		fr.env[instr] = binop(instr.Op, instr.X.Type(), x, y)
+		fr.set(instr, binop(instr.Op, instr.X.Type(), x, y))
 
 	case *ssa.Call:
 		fn, args := prepareCall(fr, &instr.Call)
-		fr.env[instr] = call(fr.i, fr, instr.Pos(), fn, args)
+		fr.set(instr, call(fr.i, fr, instr.Pos(), fn, args))
 
 	case *ssa.ChangeInterface:
-		fr.env[instr] = fr.get(instr.X)
+		fr.set(instr, fr.get(instr.X))
 
 	case *ssa.ChangeType:
-		fr.env[instr] = fr.get(instr.X) // (can't fail)
+		fr.set(instr, fr.get(instr.X))
 
 	case *ssa.Convert:
 		x := fr.get(instr.X)
@@ -352,19 +397,19 @@ func visitInstr(fr *frame, instr ssa.Instruction) continuation {
 				x = fr.concValue(s) // to float or string: concretise
 			}
 		}
-		fr.env[instr] = conv(instr.Type(), instr.X.Type(), x)
+		fr.set(instr, conv(instr.Type(), instr.X.Type(), x))
 
 	case *ssa.SliceToArrayPointer:
-		fr.env[instr] = sliceToArrayPointer(instr.Type(), instr.X.Type(), fr.get(instr.X))
+		fr.set(instr, sliceToArrayPointer(instr.Type(), instr.X.Type(), fr.get(instr.X)))
 
 	case *ssa.MakeInterface:
-		fr.env[instr] = iface{t: instr.X.Type(), v: fr.get(instr.X)}
+		fr.set(instr, iface{t: instr.X.Type(), v: fr.get(instr.X)})
 
 	case *ssa.Extract:
-		fr.env[instr] = fr.get(instr.Tuple).(tuple)[instr.Index]
+		fr.set(instr, fr.get(instr.Tuple).(tuple)[instr.Index])
 
 	case *ssa.Slice:
-		fr.env[instr] = fr.slice(fr.get(instr.X), fr.get(instr.Low), fr.get(instr.High), fr.get(instr.Max))
+		fr.set(instr, fr.slice(fr.get(instr.X), fr.get(instr.Low), fr.get(instr.High), fr.get(instr.Max)))
 
 	case *ssa.Return:
 		switch len(instr.Results) {
@@ -438,17 +483,17 @@ func visitInstr(fr *frame, instr ssa.Instruction) continuation {
 
 	case *ssa.MakeChan:
 		n := fr.concInt(fr.get(instr.Size))
-		fr.env[instr] = &schan{cap: int(n), elem: instr.Type().Underlying().(*types.Chan).Elem()}
+		fr.set(instr, &schan{cap: int(n), elem: instr.Type().Underlying().(*types.Chan).Elem()})
 
 	case *ssa.Alloc:
 		var addr *value
 		if instr.Heap {
 			// new
 			addr = new(value)
-			fr.env[instr] = addr
+			fr.set(instr, addr)
 		} else {
 			// local
-			addr = fr.env[instr].(*value)
+			addr = fr.vals[fr.info.idx[instr]].(*value)
 		}
 		*addr = zero(mustDeref(instr.Type()))
 
@@ -480,28 +525,28 @@ func visitInstr(fr *frame, instr ssa.Instruction) continuation {
 		for i := range slice {
 			slice[i] = zero(tElt)
 		}
-		fr.env[instr] = slice[:n]
+		fr.set(instr, slice[:n])
 
 	case *ssa.MakeMap:
-		fr.env[instr] = makeMap(instr.Type().Underlying().(*types.Map).Key(), 0)
+		fr.set(instr, makeMap(instr.Type().Underlying().(*types.Map).Key(), 0))
 
 	case *ssa.Range:
-		fr.env[instr] = rangeIter(fr.get(instr.X), instr.X.Type())
+		fr.set(instr, rangeIter(fr.get(instr.X), instr.X.Type()))
 
 	case *ssa.Next:
 		it := fr.get(instr.Iter).(iter)
 		if si, ok := it.(*sstringIter); ok {
-			fr.env[instr] = si.nextIn(fr)
+			fr.set(instr, si.nextIn(fr))
 		} else {
-			fr.env[instr] = it.next()
+			fr.set(instr, it.next())
 		}
 
 	case *ssa.FieldAddr:
-		fr.env[instr] = &(*fr.derefCheck(fr.get(instr.X))).(structure)[instr.Field]
+		fr.set(instr, &(*fr.derefCheck(fr.get(instr.X))).(structure)[instr.Field])
 		fr.i.watchField(fr, instr)
 
 	case *ssa.Field:
-		fr.env[instr] = fr.get(instr.X).(structure)[instr.Field]
+		fr.set(instr, fr.get(instr.X).(structure)[instr.Field])
 
 	case *ssa.IndexAddr:
 		x := fr.get(instr.X)
@@ -521,12 +566,12 @@ func visitInstr(fr *frame, instr ssa.Instruction) continuation {
 		ci, st := fr.indexCheck(idx, len(elems))
 		if st != nil {
 			if scalarElems(elems) {
-				fr.env[instr] = &symref{elems: elems, idx: st}
+				fr.set(instr, &symref{elems: elems, idx: st})
 				break
 			}
 			ci = int64(fr.i.ctx.concretize(st))
 		}
-		fr.env[instr] = &elems[ci]
+		fr.set(instr, &elems[ci])
 
 	case *ssa.Index:
 		x := fr.get(instr.X)
@@ -543,29 +588,29 @@ func visitInstr(fr *frame, instr ssa.Instruction) continuation {
 		ci, st := fr.indexCheck(idx, len(elems))
 		if st != nil {
 			if scalarElems(elems) {
-				fr.env[instr] = (&symref{elems: elems, idx: st}).load()
+				fr.set(instr, (&symref{elems: elems, idx: st}).load())
 				break
 			}
 			ci = int64(fr.i.ctx.concretize(st))
 		}
-		fr.env[instr] = elems[ci]
+		fr.set(instr, elems[ci])
 
 	case *ssa.Lookup:
-		fr.env[instr] = fr.lookup(instr, fr.get(instr.X), fr.get(instr.Index))
+		fr.set(instr, fr.lookup(instr, fr.get(instr.X), fr.get(instr.Index)))
 
 	case *ssa.MapUpdate:
 		m := fr.get(instr.Map).(*omap)
 		m.insert(fr.i, fr.get(instr.Key), fr.get(instr.Value))
 
 	case *ssa.TypeAssert:
-		fr.env[instr] = typeAssert(fr.i, instr, fr.get(instr.X).(iface))
+		fr.set(instr, typeAssert(fr.i, instr, fr.get(instr.X).(iface)))
 
 	case *ssa.MakeClosure:
 		var bindings []value
 		for _, binding := range instr.Bindings {
 			bindings = append(bindings, fr.get(binding))
 		}
-		fr.env[instr] = &closure{instr.Fn.(*ssa.Function), bindings}
+		fr.set(instr, &closure{instr.Fn.(*ssa.Function), bindings})
 
 	case *ssa.Phi:
 		log.Fatal("unreachable") // phis are processed at block entry
@@ -593,7 +638,7 @@ func visitInstr(fr *frame, instr ssa.Instruction) continuation {
 				r = append(r, v)
 			}
 		}
-		fr.env[instr] = r
+		fr.set(instr, r)
 
 	default:
 		panic(fmt.Sprintf("unexpected instruction: %T", instr))
@@ -696,18 +741,19 @@ func callSSA(i *interpreter, caller *frame, callpos token.Pos, fn *ssa.Function,
 		panic("interp requires ssa.BuilderMode to include InstantiateGenerics to execute generics")
 	}
 
-	fr.env = make(map[ssa.Value]value)
+	fr.info = infoOf(fn)
+	fr.vals = make([]value, fr.info.n)
 	fr.block = fn.Blocks[0]
 	fr.locals = make([]value, len(fn.Locals))
 	for i, l := range fn.Locals {
 		fr.locals[i] = zero(mustDeref(l.Type()))
-		fr.env[l] = &fr.locals[i]
+		fr.set(l, &fr.locals[i])
 	}
 	for i, p := range fn.Params {
-		fr.env[p] = args[i]
+		fr.set(p, args[i])
 	}
 	for i, fv := range fn.FreeVars {
-		fr.env[fv] = env[i]
+		fr.set(fv, env[i])
 	}
 	for fr.block != nil {
 		runFrame(fr)
@@ -806,7 +852,7 @@ func executePhis(fr *frame) []ssa.Instruction {
 			fr.phitemps = append(fr.phitemps, fr.get(phi.Edges[predIndex]))
 		}
 		for i, phi := range phis {
-			fr.env[phi.(*ssa.Phi)] = fr.phitemps[i]
+			fr.set(phi.(*ssa.Phi), fr.phitemps[i])
 		}
 	}
 	return nonPhis
